@@ -1,6 +1,7 @@
 package main
 
 import (
+	"math/big"
 	"fmt"
 	"go/token"
 	"go/types"
@@ -393,6 +394,53 @@ func (c *Ctx) checkBitmapWire(cfg TraceConfig) {
 									stride = false
 								}
 							}
+						}
+					}
+					// the word read is stored into word i of the bitmap (offset = 8*i) on every path that goes on
+					if good && okD && (t.End == EndReturn || t.End == EndCut) {
+						stored := false
+						for j := i + 1; j < len(t.Events); j++ {
+							y := t.Events[j]
+							if y.Kind == EvStore && y.Addr.Kind == KIndexAddr && y.Val.mentions(e.Res.Key()) {
+								// index*8 == offset
+								if lf(y.Addr.Args[1]).scale(big.NewInt(8)).equal(lf(src.Args[1])) {
+									stored = true
+								}
+							}
+						}
+						if !stored {
+							// skipping an all-zero word is harmless (a fresh bitmap's word is already zero, and the sparse
+							// form is additive too) — provided the loop goes on: the zero test is followed by the loop's
+							// bound test, not by the exit
+							zero := hasFact(t.factsBefore(len(t.Events)), func(f Fact) bool {
+								z, isz := f.Y.intConst()
+								return f.X.strip().mentions(e.Res.Key()) && isz && z == 0 && f.Op == token.EQL
+							})
+							goesOn := false
+							seenZeroTest := false
+							for j := i + 1; j < len(t.Events); j++ {
+								y := t.Events[j]
+								if y.Kind != EvBranch {
+									continue
+								}
+								if y.Cond.mentions(e.Res.Key()) {
+									seenZeroTest = true
+									continue
+								}
+								if seenZeroTest && y.Cond.Kind == KBin && y.Cond.Op == token.LSS {
+									if k, isK := y.Cond.Args[1].intConst(); isK && k == 16 {
+										goesOn = true
+									}
+								}
+							}
+							if seenZeroTest && t.End == EndCut {
+								goesOn = true // cut at the loop's back edge: the loop continues
+							}
+							stored = zero && goesOn
+						}
+						if !stored {
+							okD = false
+							c.violated("C09.wire-form", "Unmarshal dense", e.Pos, "a word read from the dense form is not stored into word i of the bitmap on this path (the loop is left or the word skipped): members of that word and of every later word are lost without an error", c.witness(t, len(t.Events)-1)...)
 						}
 					}
 					if !(good && ge128 && le128 && stride) && okD {
